@@ -5,6 +5,7 @@ import Mathlib.Data.Nat.GCD.Basic
 import Mathlib.Algebra.Order.Field.Basic
 import Mathlib.Data.Rat.Cast.Order
 import Mathlib.Logic.Equiv.List
+import Mathlib.Tactic.IntervalCases
 /-!
 Helper lemmas for C13 (`Model/Order.lean`): the standard order is a total preorder on all
 terms, and a total order on normal ones.
@@ -761,5 +762,52 @@ theorem termCompare_ofChars_ne (age : String → Nat) (c d : Char) (h : c ≠ d)
     rw [Ne, Nat.compare_eq_eq, Char.toNat_inj]; exact h
   cases hc : compare c.toNat d.toNat <;> simp_all
 
+/-! ### partial-string tail cell arithmetic (finding C13-2) -/
+
+theorem sentinelLen_eq (e : Nat) : sentinelLen e = 8 - e % 8 := by
+  unfold sentinelLen
+  have hr := Nat.mod_lt e (by decide : 8 > 0)
+  split <;> omega
+
+theorem tailIdxFromZero_eq (e : Nat) : tailIdxFromZero e = if e % 8 = 7 then 2 else 1 := by
+  unfold tailIdxFromZero cellIndex
+  rw [sentinelLen_eq]
+  have hr := Nat.mod_lt e (by decide : 8 > 0)
+  generalize e % 8 = r at *
+  interval_cases r <;> rfl
+
+theorem tailCellWritten_eq (e : Nat) :
+    tailCellWritten e = e / 8 + (if e % 8 = 7 then 2 else 1) := by
+  unfold tailCellWritten cellIndex
+  rw [sentinelLen_eq]
+  have hr := Nat.mod_lt e (by decide : 8 > 0)
+  have hd := Nat.div_add_mod e 8
+  generalize e % 8 = r at *
+  generalize e / 8 = q at *
+  subst hd
+  interval_cases r <;> simp <;> omega
+
+theorem otherTailCell_eq (l pos : Nat) : otherTailCell l pos = tailCellWritten (l + pos) := by
+  unfold otherTailCell
+  rw [tailCellWritten_eq, tailIdxFromZero_eq]
+  unfold cellIndex
+  omega
+
+theorem leftTailCell_fixed (l1 pos : Nat) :
+    leftTailCell true l1 pos = tailCellWritten (l1 + pos) := by
+  unfold leftTailCell
+  rw [tailCellWritten_eq, tailIdxFromZero_eq]
+  unfold cellIndex
+  simp only [if_true]
+  omega
+
+theorem leftTailCell_pinned (l1 pos : Nat) :
+    (l1 % 8 + pos % 8 < 8 → leftTailCell false l1 pos = tailCellWritten (l1 + pos)) ∧
+    (8 ≤ l1 % 8 + pos % 8 → leftTailCell false l1 pos + 1 = tailCellWritten (l1 + pos)) := by
+  unfold leftTailCell
+  rw [tailCellWritten_eq, tailIdxFromZero_eq]
+  unfold cellIndex
+  simp only [Bool.false_eq_true, if_false]
+  constructor <;> intro h <;> omega
 
 end Scryer.Order
